@@ -69,6 +69,19 @@ Theorem C13_filter_region_equivariant : forall dx dy b m,
 Proof. exact filter_region_equivariant. Qed.
 Print Assumptions C13_filter_region_equivariant.
 
+(* hence every input of filter::apply (layer transform, source size, region) is shift-invariant: light-source
+   positions, the turbulence offset region.x - ts.tx and primitive sub-regions are functions of these only *)
+Theorem C13_filter_inputs_invariant : forall dx dy b m t,
+  small_bbox b -> small_bbox (qshift dx dy b) -> valid_irect m ->
+  filter_layer_clamped b m = false -> filter_layer_clamped (qshift dx dy b) m = false ->
+  forall i i', layer_box b false m = LBox i -> layer_box (qshift dx dy b) false m = LBox i' ->
+  ts_eq (layer_content_ts (qshift dx dy b) i' (ts_concat (from_translate (inject_Z dx) (inject_Z dy)) t))
+        (layer_content_ts b i t) /\
+  layer_size i' = layer_size i /\
+  filter_region (qshift dx dy b) i' = filter_region b i.
+Proof. exact filter_inputs_invariant. Qed.
+Print Assumptions C13_filter_inputs_invariant.
+
 (* nested layers: equivariance needs the frame guard of C14 (accumulated layer origin within +-2 canvases);
    without it the clamp cuts visible content differently before and after the shift *)
 Theorem C13_nested_frame_refuted :
